@@ -1,4 +1,5 @@
 import FitProps.Go2LeanProtoHeader
+import FitProps.Go2LeanRawSize
 /-!
 # C16 — tie of the record-header helpers to the source by translation
 
@@ -7,7 +8,10 @@ import FitProps.Go2LeanProtoHeader
 `localNum` / `isCompressed` / `isDefinition` / `hasDevData`, and the masks of the reader model — for every header byte.
 
 PROPERTY THEOREMS (audited by ./check): C16_go2lean_localMesgNum, C16_go2lean_localMesgNum_lt, C16_go2lean_masks_reader,
-C16_go2lean_masks_format
+C16_go2lean_masks_format, and — the length bookkeeping of `(*RawDecoder).Decode`, translated from decoder/raw.go
+(`FitModel/Generated/Go_rawsize.lean`; statements with comments: FitProps/Go2LeanRawSize.lean) — C16_go2lean_raw_fieldSizes,
+C16_go2lean_raw_devCount, C16_go2lean_raw_devFieldSizes, C16_go2lean_raw_conds, C16_go2lean_raw_nFields, C16_go2lean_raw_moreData,
+C16_go2lean_raw_lensInit, C16_go2lean_raw_store, C16_go2lean_raw_lookup, C16_go2lean_raw_reads, C16_go2lean_raw_count
 -/
 namespace Fit.C16
 open Fit.Go2Lean
@@ -31,5 +35,75 @@ theorem C16_go2lean_masks_format : ∀ h < 256,
     Fit.FitFormat.isDefinition h = (!Fit.FitFormat.isCompressed h && (h &&& Go.proto.MesgDefinitionMask) == Go.proto.MesgDefinitionMask) ∧
     Fit.FitFormat.hasDevData h = ((h &&& Go.proto.DevDataMask) == Go.proto.DevDataMask) ∧
     h &&& Go.proto.CompressedTimeMask = h % 32 ∧ Go.proto.MesgNormalHeaderMask = 0 := proto_masks_format
+
+/-! ### decoder/raw.go: message lengths, the data-size loop, request sizes -/
+section raw
+open Fit.Raw Fit.Gen.Reader Go.rawsize
+
+theorem C16_go2lean_raw_fieldSizes (pre fb rest : List Nat) (nFields : Nat) (hpre : pre.length = 6) (hfb : fb.length = nFields * 3)
+    (hn : nFields < 256) (hb : ∀ x ∈ fb, x < 256) :
+    Decode_fieldSizes (pre ++ fb ++ rest) 6 nFields = some ⟨6 + nFields * 3, 1 + sizeSum fb⟩ :=
+  raw_fieldSizes pre fb rest nFields hpre hfb hn hb
+
+theorem C16_go2lean_raw_devCount (pre rest : List Nat) (nb : Nat) (hpre : pre.length < 65535) :
+    Decode_devCount (pre ++ nb :: rest) pre.length = some ⟨pre.length + 1, nb, pre.length + 1⟩ := raw_devCount pre rest nb hpre
+
+theorem C16_go2lean_raw_devFieldSizes (pre db rest : List Nat) (nDev lenMesg : Nat) (hpre : pre.length ≤ 6 + 255 * 3 + 1)
+    (hdb : db.length = nDev * 3) (hn : nDev < 256) (hb : ∀ x ∈ db, x < 256) (hl : lenMesg ≤ 1 + 255 * 255) :
+    Decode_devFieldSizes (pre ++ db ++ rest) pre.length lenMesg pre.length nDev = some ⟨lenMesg + sizeSum db, pre.length + nDev * 3⟩ :=
+  raw_devFieldSizes pre db rest nDev lenMesg hpre hdb hn hb hl
+
+theorem C16_go2lean_raw_conds :
+    (∀ size : Nat, Decode_badHeaderSize size = decide (size ≠ 12 ∧ size ≠ 14)) ∧
+    (∀ h < 256, ∀ rest : List Nat,
+      Decode_headerSize (h :: rest) = some ⟨h⟩ ∧
+      Decode_isDefinition (h :: rest) = some (decide (h &&& (mesgCompressedHeaderMask ||| mesgDefinitionMask) = mesgDefinitionMask)) ∧
+      Decode_hasDevData (h :: rest) = some (decide (h &&& devDataMask = devDataMask)) ∧
+      Decode_lookupHeader (h :: rest) = some h) ∧
+    (∀ l : Nat, Decode_defMissing l = decide (l = 0)) := raw_conds
+
+theorem C16_go2lean_raw_nFields (h : Nat) (b5 rest : List Nat) (hb : b5.length = 5) :
+    Decode_nFields (h :: (b5 ++ rest)) = some ⟨(b5.drop 4).headD 0⟩ := raw_nFields h b5 rest hb
+
+theorem C16_go2lean_raw_moreData (pos used dataSize : Nat) (h : pos + used < 2^62) :
+    Decode_moreData dataSize ((pos + used : Nat) : Int) (pos : Int) = decide (used % 2^32 < dataSize) ∧
+    (used < 2^32 → Decode_moreData dataSize ((pos + used : Nat) : Int) (pos : Int) = decide (used < dataSize)) :=
+  raw_moreData pos used dataSize h
+
+theorem C16_go2lean_raw_lensInit : RawLensRep Decode_lensInit.lenMesgs [] := raw_lensInit
+
+theorem C16_go2lean_raw_store (arr : List Nat) (lens : Lens) (h v : Nat) (rest : List Nat) (hr : RawLensRep arr lens) :
+    ∃ out, Decode_store (h :: rest) v arr = some out ∧ out.localMesgNum = h &&& localMesgNumMask ∧
+      RawLensRep out.lenMesgs ((h &&& localMesgNumMask, v) :: lens) := raw_store arr lens h v rest hr
+
+theorem C16_go2lean_raw_lookup (arr : List Nat) (lens : Lens) (i : Nat) (hi : i < 16) (hr : RawLensRep arr lens) :
+    Decode_lookup arr i = some ⟨lens.get i⟩ := raw_lookup arr lens i hi hr
+
+theorem C16_go2lean_raw_reads (size lenMesgDef nFields first nDev lenMesg : Nat) (hd : lenMesgDef ≤ 6 + 255 * 3 + 1)
+    (hf : first ≤ 6 + 255 * 3 + 1) (hn : nFields < 256) (hv : nDev < 256) :
+    Decode_s1_hi = 1 ∧ Decode_s2_lo = 1 ∧ Decode_s2_hi size = size ∧
+    Decode_s3_lo = 7 + 1 ∧ Decode_s3_hi = 7 + 1 + 4 ∧ Decode_s4_lo = 3 + 1 ∧ Decode_s4_hi = 3 + 1 + 4 ∧
+    Decode_s5_hi size = size ∧ Decode_s6_hi = 1 ∧ Decode_s7_lo = 1 ∧ Decode_s7_hi = 1 + 5 ∧
+    Decode_s8_lo lenMesgDef = lenMesgDef ∧ Decode_s8_hi lenMesgDef nFields = lenMesgDef + nFields * 3 ∧
+    Decode_s9_lo lenMesgDef = lenMesgDef ∧ Decode_s9_hi lenMesgDef = lenMesgDef + 1 ∧
+    Decode_s10_lo first = first ∧ Decode_s10_hi first nDev = first + nDev * 3 ∧
+    Decode_s11_hi lenMesgDef = lenMesgDef ∧
+    Decode_s12_lo = 1 ∧ Decode_s12_hi lenMesg = lenMesg ∧
+    Decode_s13_hi lenMesg = lenMesg ∧
+    Decode_s14_hi = 2 ∧ Decode_s15_hi = 2 := raw_reads size lenMesgDef nFields first nDev lenMesg hd hf hn hv
+
+theorem C16_go2lean_raw_count (n nr : Nat) (h : n + nr < 2^62) :
+    (Decode_count1 n nr).n = ((n + nr : Nat) : Int) ∧ (Decode_count2 n nr).n = ((n + nr : Nat) : Int) ∧
+    (Decode_count3 n nr).n = ((n + nr : Nat) : Int) ∧ (Decode_count4 n nr).n = ((n + nr : Nat) : Int) ∧
+    (Decode_count5 n nr).n = ((n + nr : Nat) : Int) ∧ (Decode_count6 n nr).n = ((n + nr : Nat) : Int) ∧
+    (Decode_count7 n nr).n = ((n + nr : Nat) : Int) ∧ (Decode_count8 n nr).n = ((n + nr : Nat) : Int) ∧
+    (Decode_count9 n nr).n = ((n + nr : Nat) : Int) ∧ (Decode_nextSeq n).seq = ((n + 1 : Nat) : Int) := raw_count n nr h
+
+/-- non-vacuity: a definition with two fields (sizes 4 and 2) and one developer field (size 3) gives the length 1 + 6 + 3 -/
+example : Decode_fieldSizes ([0x60, 0, 0, 20, 0, 2] ++ [253, 4, 134, 0, 2, 132] ++ [1, 9, 3, 0]) 6 2 = some ⟨12, 7⟩ ∧
+    Decode_devCount ([0x60, 0, 0, 20, 0, 2, 253, 4, 134, 0, 2, 132] ++ 1 :: [9, 3, 0]) 12 = some ⟨13, 1, 13⟩ ∧
+    Decode_devFieldSizes ([0x60, 0, 0, 20, 0, 2, 253, 4, 134, 0, 2, 132, 1] ++ [9, 3, 0] ++ []) 13 7 13 1 = some ⟨10, 16⟩ := by decide
+
+end raw
 
 end Fit.C16
